@@ -87,7 +87,16 @@ def check_object(acc, o, wit):
             back = type(o).parse_exact_size(bytes(o.compose()))
         except Exception:  # noqa
             back = None
-        if back is not None and canon.dump(back, eq=True, tz=True) == canon.dump(o, eq=True, tz=True):
+        same = back is not None and canon.dump(back, eq=True, tz=True) == canon.dump(o, eq=True, tz=True)
+        if back is not None and not same:
+            # the property speaks of *equal* objects: a dict and an OrderedDict holding the same items are equal for the
+            # library's == (the canonical dump keeps them apart), so such a round trip is a twin as well
+            try:
+                same = (canon.loosen(canon.dump(back, eq=True, tz=True)) == canon.loosen(canon.dump(o, eq=True, tz=True))
+                        and bool(back == o) and bytes(back.compose()) == bytes(o.compose()))
+            except Exception:  # noqa
+                same = False
+        if same:
             acc.counters['transitions'] = acc.counters.get('transitions', 0) + 2
             j3, m3 = render(back)
             if j3 != j or m3 != m:
@@ -115,6 +124,31 @@ def check_object(acc, o, wit):
                     acc.violation('insertion_order:%s:%s:%s' % (cname, attr_name, 'json' if j4 != j else 'markdown'),
                                   'equal %s objects built with a different insertion order of %s serialise differently'
                                   % (cname, attr_name), dict(wit, field=attr_name))
+                    break
+            if isinstance(v, dict):
+                # container-type twins: the same items in a dict and in an OrderedDict are equal for == (whatever
+                # their order); when the class accepts both, both must serialise identically
+                import collections
+                for perm in itertools.permutations(items):
+                    for t2 in (dict, collections.OrderedDict):
+                        if t2 is t and list(perm) == items:
+                            continue
+                        try:
+                            o2 = objects.rebuild(o, attr_name, t2(perm))
+                            equal = bool(o2 == o)
+                        except Exception:  # noqa - the class refuses this container type
+                            continue
+                        if not equal:
+                            continue
+                        acc.counters['transitions'] = acc.counters.get('transitions', 0) + 2
+                        j5, m5 = render(o2)
+                        if j5 != j or m5 != m:
+                            acc.violation('container_type:%s:%s:%s' % (cname, attr_name, 'json' if j5 != j else 'markdown'),
+                                          'equal %s objects holding %s as %s and as %s serialise differently'
+                                          % (cname, attr_name, t.__name__, t2.__name__), dict(wit, field=attr_name))
+                            break
+                    else:
+                        continue
                     break
     return j, m
 
